@@ -18,7 +18,7 @@ package scalarEstimator
 
 /* -------------------------------------------------------------------------- */
 
-//import   "fmt"
+import   "fmt"
 import   "math"
 
 import . "github.com/pbenner/autodiff/statistics"
@@ -34,7 +34,8 @@ type NormalEstimator struct {
   StdEstimator
   // parameters
   SigmaMin float64
-  // state
+  // state (per thread: sum of weights, mean, and sum of squared deviations
+  // from the mean)
   sum_g []float64
   sum_m []float64
   sum_s []float64
@@ -90,17 +91,20 @@ func (obj *NormalEstimator) Initialize(p ThreadPool) error {
 
 func (obj *NormalEstimator) NewObservation(x, gamma ConstScalar, p ThreadPool) error {
   id := p.GetThreadId()
-  if gamma == nil {
+  g  := 1.0
+  if gamma != nil {
+    g = math.Exp(gamma.GetFloat64() - obj.gamma_max)
+  }
+  if g > 0.0 {
+    // incremental update of the weighted mean and the sum of squared
+    // deviations (computing the variance as E[x^2] - E[x]^2 loses all
+    // digits if the mean is large compared to the standard deviation)
     x := x.GetFloat64()
-    obj.sum_m[id] += x
-    obj.sum_s[id] += x*x
-    obj.sum_g[id] += 1.0
-  } else {
-    x := x.GetFloat64()
-    g := math.Exp(gamma.GetFloat64() - obj.gamma_max)
-    obj.sum_m[id] += g*x
-    obj.sum_s[id] += g*x*x
-    obj.sum_g[id] += g
+    w := obj.sum_g[id] + g
+    d := x - obj.sum_m[id]
+    obj.sum_m[id] += d*(g/w)
+    obj.sum_s[id] += d*d*obj.sum_g[id]*(g/w)
+    obj.sum_g[id]  = w
   }
   return nil
 }
@@ -112,16 +116,22 @@ func (obj *NormalEstimator) updateEstimate() error {
   sum_g := 0.0
   sum_m := 0.0
   sum_s := 0.0
+  // merge the partial results of all threads
   for i := 0; i < len(obj.sum_m); i++ {
-    sum_m += obj.sum_m[i]
-    sum_s += obj.sum_s[i]
-    sum_g += obj.sum_g[i]
+    if obj.sum_g[i] == 0.0 {
+      continue
+    }
+    g := sum_g + obj.sum_g[i]
+    d := obj.sum_m[i] - sum_m
+    sum_m += d*(obj.sum_g[i]/g)
+    sum_s += obj.sum_s[i] + d*d*sum_g*(obj.sum_g[i]/g)
+    sum_g  = g
   }
-  s1 := sum_m/float64(sum_g)
-  s2 := sum_s/float64(sum_g)
-
-  mu    := NewScalar(obj.ScalarType(), s1)
-  sigma := NewScalar(obj.ScalarType(), math.Sqrt(s2 - s1*s1))
+  if sum_g == 0.0 {
+    return fmt.Errorf("normal parameter estimation failed (no observation with positive weight)")
+  }
+  mu    := NewScalar(obj.ScalarType(), sum_m)
+  sigma := NewScalar(obj.ScalarType(), math.Sqrt(sum_s/sum_g))
 
   if math.IsNaN(sigma.GetFloat64()) || sigma.GetFloat64() < obj.SigmaMin {
     sigma.SetFloat64(obj.SigmaMin)
